@@ -1,5 +1,5 @@
 ---- MODULE MC_Accounts ----
-EXTENDS Accounts, Json
+EXTENDS Accounts, Json, Randomization
 CONSTANTS Depth, SVal
 
 LogAppend(h, r) == Append(h, r)
@@ -16,6 +16,7 @@ W2d == {w \in W2 : w[1].k # w[2].k \/ w[1].v # w[2].v}
 ChCode   == {[Keep EXCEPT !.code = c] : c \in Code \cup {"keep", ""}}
 ChSto    == {[Keep EXCEPT !.w = w] : w \in W1 \cup {<<>>}}
 ChSto2   == {[Keep EXCEPT !.w = w] : w \in W1 \cup W2d \cup {<<>>}}
+ChCodeSto == {[Keep EXCEPT !.code = c, !.w = w] : c \in Code \cup {"keep", ""}, w \in W1 \cup {<<>>}}
 ChFields == {[Keep EXCEPT !.dn = 1], [Keep EXCEPT !.bal = 1], [Keep EXCEPT !.bal = 2],
              [Keep EXCEPT !.owner = "o1", !.meta = "m1"], [Keep EXCEPT !.owner = "", !.meta = "m2"]}
 ChMixed  == ChCode \cup ChSto \cup ChFields
@@ -30,6 +31,26 @@ DepthBound == TLCGet("level") <= Depth
 \* behaviour export (see specs/CapLRU/MC_CapLRU.tla)
 GenNext  == Len(hist) < Depth /\ Next
 GenSpec  == Init /\ [][GenNext]_vars
+GenCoreNext == Len(hist) < Depth /\ NextCore
+GenCoreSpec == Init /\ [][GenCoreNext]_vars
+CoreSpec == Init /\ [][NextCore]_vars
 EmitEdge == PrintT("@@B " \o ToJson(hist'))
+
+\* R1 on the code as it exists (KnownDefects # {}): print the behaviour that breaks the property and stop
+EmitViolationC06 == Inv_C06_RevertRestores \/ (PrintT("@@B " \o ToJson(hist)) /\ FALSE)
+EmitViolationC07 == Inv_C07_RefCount \/ (PrintT("@@B " \o ToJson(hist)) /\ FALSE)
+\* simulation: random walks of Depth-1 calls closed by a marker step, so that each walk is printed exactly once
+End == /\ UNCHANGED cvars
+       /\ hist' = Append(hist, [a |-> "End", in |-> [x |-> 0], out |-> [err |-> FALSE, jl |-> Len(journal)], st |-> Abs])
+\* TLC's simulator picks uniformly among ALL successor states, so the candidates are sampled here: a few random
+\* changes per account, removals of existing accounts (rarely of a missing one), two random snapshots, a rare commit
+SimStep ==
+    \/ \E a \in Addr, ch \in RandomSubset(2, Changes) : Save(a, ch)
+    \/ \E a \in Addr : (main[a].ex \/ RandomElement(1..6) = 1) /\ Remove(a)
+    \/ \E n \in RandomSubset(2, DOMAIN stateAt) : Revert(n)
+    \/ RandomElement(1..8) = 1 /\ RevertBad
+    \/ RandomElement(1..3) = 1 /\ Commit
+SimNext  == IF Len(hist) < Depth - 1 THEN SimStep ELSE (Len(hist) = Depth - 1 /\ End)
+SimSpec  == Init /\ [][SimNext]_vars
 EmitFull == (Len(hist') = Depth) => PrintT("@@B " \o ToJson(hist'))
 ====
